@@ -21,7 +21,7 @@ def key(case, variant, tag, step):
 
 def variants(idx):
     return dict(engine=["joblib", "h5netcdf"][idx % 5 == 0], ext=[True, False, True, "dotted"][idx % 4], via_add_ds=(idx % 4 == 2),
-                other_harvester=(idx % 2 == 1))
+                other_harvester=(idx % 2 == 1), percall_engine=(idx % 3 == 2))
 
 
 def run(rep):
